@@ -128,7 +128,9 @@ type Fact struct {
 // for every block x on b's dominator chain that has a single predecessor ending
 // in an If, the outcome of that If. Short-circuit && / || are already separate
 // blocks in SSA.
-func FactsAt(b *ssa.BasicBlock) []Fact {
+func FactsAt(b *ssa.BasicBlock) []Fact { return expandFacts(factsAtRaw(b), 0) }
+
+func factsAtRaw(b *ssa.BasicBlock) []Fact {
 	var out []Fact
 	for x := b; x != nil; x = x.Idom() {
 		if len(x.Preds) != 1 {
@@ -173,11 +175,58 @@ func FactsAtInstr(in ssa.Instruction) []Fact { return FactsAt(in.Block()) }
 // FactsOnEdge returns facts holding when control flows along pred->succ
 // (used for phi edges): facts at pred plus the branch outcome if pred ends in If.
 func FactsOnEdge(pred, succ *ssa.BasicBlock) []Fact {
-	out := FactsAt(pred)
+	out := factsAtRaw(pred)
 	if len(pred.Instrs) > 0 {
 		if ifi, ok := pred.Instrs[len(pred.Instrs)-1].(*ssa.If); ok && pred.Succs[0] != pred.Succs[1] {
 			out = append(out, normFact(Fact{Cond: ifi.Cond, Val: succ == pred.Succs[0], If: ifi}))
 		}
+	}
+	return expandFacts(out, 0)
+}
+
+// expandFacts adds what a fact about a short-circuit value implies. `x := a && b`
+// is a phi [false, b] placed after the test of a: when the phi is known to be
+// true, the only edge that can have produced it is the one carrying b, so b is
+// true and so is everything that holds on that edge (a). Dually for `a || b`
+// known to be false. Without this a condition stored in a variable before it
+// is tested would hide the facts an inline condition gives.
+func expandFacts(facts []Fact, depth int) []Fact {
+	if depth > 3 {
+		return facts
+	}
+	out := facts
+	for _, f := range facts {
+		ph, ok := f.Cond.(*ssa.Phi)
+		if !ok {
+			continue
+		}
+		if b, isB := ph.Type().Underlying().(*types.Basic); !isB || b.Kind() != types.Bool {
+			continue
+		}
+		var live []int
+		for i, e := range ph.Edges {
+			if k, isK := ConstBool(e); isK && k != f.Val {
+				continue // this edge would have produced the other value
+			}
+			live = append(live, i)
+		}
+		if len(live) != 1 {
+			continue
+		}
+		i := live[0]
+		var more []Fact
+		if _, isK := ConstBool(ph.Edges[i]); !isK {
+			more = append(more, normFact(Fact{Cond: ph.Edges[i], Val: f.Val, If: f.If}))
+		}
+		pred := ph.Block().Preds[i]
+		edge := factsAtRaw(pred)
+		if len(pred.Instrs) > 0 {
+			if ifi, ok := pred.Instrs[len(pred.Instrs)-1].(*ssa.If); ok && pred.Succs[0] != pred.Succs[1] {
+				edge = append(edge, normFact(Fact{Cond: ifi.Cond, Val: ph.Block() == pred.Succs[0], If: ifi}))
+			}
+		}
+		more = append(more, edge...)
+		out = append(out, expandFacts(more, depth+1)...)
 	}
 	return out
 }
